@@ -34,15 +34,20 @@ TTampered == /\ R.event = "Tampered"
 TNoSignature == /\ R.event = "NoSignature"
                 /\ UNCHANGED <<sigvars, skipping>>
                 /\ Step(R.verify = "err")
+\* a package whose recorded header digest is not the digest of its header (the genuine signatures beside it, the
+\* signature index in any order): "every digest recorded in the package matches" fails, so verification must
+TWrongDigest == /\ R.event = "WrongDigest"
+                /\ UNCHANGED <<sigvars, skipping>>
+                /\ Step(R.verify = "err")
 \* a carrier the harness could not use (nothing is claimed about it here)
 TSkipped == R.event = "CarrierSkipped" /\ UNCHANGED <<sigvars, skipping>> /\ Step(TRUE)
-TOther == /\ R.event \notin {"Begin", "Consult", "Return", "Tampered", "CarrierSkipped", "NoSignature"} \/ (skipping /\ R.event \in {"Consult", "Return"})
+TOther == /\ R.event \notin {"Begin", "Consult", "Return", "Tampered", "CarrierSkipped", "NoSignature", "WrongDigest"} \/ (skipping /\ R.event \in {"Consult", "Return"})
              \/ (R.event = "Return" /\ R.result \notin {"ok", "err"})
           /\ UNCHANGED sigvars
           /\ IF skipping /\ R.event \in {"Consult", "Return"} THEN UNCHANGED skipping /\ Step(TRUE)
              ELSE skipping' = TRUE /\ Step(FALSE)          \* panic or unknown event: abandon the episode
 
-Next == l <= N /\ (TBegin \/ TConsult \/ TReturnOk \/ TReturnErr \/ TTampered \/ TNoSignature \/ TSkipped \/ TOther)
+Next == l <= N /\ (TBegin \/ TConsult \/ TReturnOk \/ TReturnErr \/ TTampered \/ TNoSignature \/ TWrongDigest \/ TSkipped \/ TOther)
 Spec == Init /\ [][Next]_vars
 Finished == (l = N + 1) => WriteVerdict(rej, nrej)
 =============================================================================
